@@ -472,6 +472,27 @@ func runPool(p poolParams) *scen.Outcome {
 		}
 		return false
 	}
+	// C04: the transport never retries or duplicates an execution
+	execCount := map[string]int{}
+	for _, s := range r.srvs {
+		for _, g := range s.rigs {
+			ex, _, _ := g.Ledger.Snapshot()
+			for _, e := range ex {
+				if e.Known {
+					execCount[e.ID]++
+				}
+			}
+		}
+	}
+	for _, c := range r.calls {
+		if c.kind != "call" || atomic.LoadInt32(&c.done) == 0 {
+			continue
+		}
+		n := execCount[c.id]
+		if n > 1 || (c.err == nil && n != 1) {
+			r.bad("C04", "C04/pool/exec-count", fmt.Sprintf("call %s through the Transport (err %v) was executed %d times", c.id, c.err, n))
+		}
+	}
 	failuresAfterKill := 0
 	for _, c := range r.calls {
 		if atomic.LoadInt32(&c.done) == 0 {
